@@ -120,6 +120,27 @@ def check_compose(case):
         allvoid = all(ax["kind"] == "void" for ax in axes)
         raise Violation("all-void-changed" if allvoid else "composition",
                         f"dataSmooth differs from composed axis convolutions by {d:.3e} (naxes={len(axes)})")
+    # results derived from `res` AFTER its smoothed data was evaluated carry their own smoothed data
+    if case["rank"] >= 1:
+        from wannierberri.symmetry.point_symmetry import PointSymmetry, transform_ident
+        c, s_ = np.cos(0.7), np.sin(0.7)
+        R = np.array([[c, -s_, 0], [s_, c, 0], [0, 0, 1.0]]) @ np.array([[1, 0, 0], [0, 0, -1.0], [0, 1.0, 0]])
+        res2 = EnergyResult(Es, data.copy(), smoothers=smoothers, transformTR=transform_ident, transformInv=transform_ident,
+                            rank=case["rank"])
+        res2.dataSmooth
+        derived = [("transform", res2.transform(PointSymmetry(R)))]
+    else:
+        res2 = res
+        derived = []
+    derived += [("scaled", res2 * 2.5), ("sum", res2 + res2)]
+    for what, r in derived:
+        exp = np.asarray(r.data)
+        for i, (ax, E) in enumerate(zip(axes, Es)):
+            exp = ref_smooth(ax, E, exp, i)
+        d = reldiff(r.dataSmooth, exp)
+        if d > TOL:
+            raise Violation(f"derived-result:{what}", f"dataSmooth of a result obtained by '{what}' from a result whose smoothed "
+                                                      f"data had been read differs from the smoothing of its own data by {d:.3e}")
     return ok(len(nonvoid) >= 2, f"naxes={len(axes)}", f"nonvoid={len(nonvoid)}", f"rank={case['rank']}",
               "wide-kernel(NE1>=NE)" if any(ax["m"] >= ax["NE"] for ax in nonvoid) else None)
 
